@@ -4,6 +4,7 @@ package main
 // of attacker-chosen integers, with "bounded by an untainted value" as the sanitiser.
 
 import (
+	"strings"
 	"fmt"
 	"os"
 	"go/token"
@@ -52,6 +53,7 @@ type Taint struct {
 	memoOK   map[ssa.Value]bool
 	stores   map[*ssa.Function]map[*types.Var]bool // fields stored to in a function
 	visiting map[*ssa.Phi]bool
+	sanit    map[string]int
 }
 
 func newTaint(cfg TaintCfg) *Taint {
@@ -373,6 +375,64 @@ func (t *Taint) boundedAt(v ssa.Value, b *ssa.BasicBlock, depth int) (bool, stri
 			return true, fmt.Sprintf("dominating guard against the untainted bound %s", exprStr(other))
 		}
 	}
+	// dominating guard on the outcome of a module-local validation helper that was handed v:
+	//   if err := checkIndex(peer, v); err != nil { return err }      (error result nil on this edge)
+	//   if !inRange(peer, v) { return ErrRange }                      (boolean result true on this edge)
+	// holds when, inside the helper, the corresponding parameter is bounded at every return that can
+	// produce that outcome (a sanitiser summary, computed with the same rule).
+	for _, g := range guardsOf(b) {
+		g = g.norm()
+		var call *ssa.Call
+		outcome := 0 // 1: error result is nil; 2: bool true; 3: bool false
+		switch c := g.Cond.(type) {
+		case *ssa.Call:
+			call = c
+			outcome = 3
+			if g.Pol {
+				outcome = 2
+			}
+		case *ssa.BinOp:
+			if (c.Op == token.EQL || c.Op == token.NEQ) && (isNilConst(c.Y) || isNilConst(c.X)) {
+				x := c.X
+				if isNilConst(x) {
+					x = c.Y
+				}
+				if !isErrorType(x.Type()) {
+					break
+				}
+				isNil := (c.Op == token.EQL) == g.Pol
+				if !isNil {
+					break
+				}
+				switch y := x.(type) {
+				case *ssa.Call:
+					call = y
+				case *ssa.Extract:
+					call, _ = y.Tuple.(*ssa.Call)
+				}
+				outcome = 1
+			}
+		}
+		if call == nil || call.Call.IsInvoke() {
+			continue
+		}
+		h := call.Call.StaticCallee()
+		if h == nil || h.Blocks == nil || !strings.HasPrefix(funcPkgPath(h), modPath) {
+			continue
+		}
+		sv := stripIntConv(v)
+		for k, a := range call.Call.Args {
+			if k >= len(h.Params) {
+				break
+			}
+			if !(t.sameLoadVal(a, v) || t.sameLoadVal(stripIntConv(a), sv)) {
+				continue
+			}
+			if t.sanitises(h, k, outcome, depth) {
+				return true, fmt.Sprintf("validated by %s (parameter %d bounded on every return with this outcome)", fname(h), k)
+			}
+		}
+	}
 	switch x := v.(type) {
 	case *ssa.Convert:
 		return t.boundedAt(x.X, b, depth+1)
@@ -436,6 +496,60 @@ func (t *Taint) boundedAt(v ssa.Value, b *ssa.BasicBlock, depth int) (bool, stri
 		}
 	}
 	return false, ""
+}
+
+// sanitises: in helper h, parameter k is bounded at every return that can produce the given outcome
+// (1: the error result may be nil; 2: the boolean result may be true; 3: may be false).
+func (t *Taint) sanitises(h *ssa.Function, k int, outcome int, depth int) bool {
+	if depth > 5 {
+		return false
+	}
+	key := fmt.Sprintf("%p/%d/%d", h, k, outcome)
+	if t.sanit == nil {
+		t.sanit = map[string]int{}
+	}
+	switch t.sanit[key] {
+	case 1:
+		return true
+	case 2:
+		return false
+	}
+	t.sanit[key] = 2
+	ne := newNilEnv(t.cfg.P)
+	prm := h.Params[k]
+	any := false
+	for _, ret := range returnsOf(h) {
+		res := retResults(ret)
+		can := true
+		switch outcome {
+		case 1:
+			can = false
+			for i := len(res) - 1; i >= 0; i-- {
+				if isErrorType(res[i].Type()) {
+					can = isNilConst(res[i]) || ne.At(res[i], ret.Block()) != NonNil
+					break
+				}
+			}
+		case 2, 3:
+			if len(res) == 0 {
+				return false
+			}
+			if bv, isb := constBool(res[len(res)-1]); isb {
+				can = bv == (outcome == 2)
+			}
+		}
+		if !can {
+			continue
+		}
+		any = true
+		if ok, _ := t.boundedAt(prm, ret.Block(), depth+1); !ok {
+			return false
+		}
+	}
+	if any {
+		t.sanit[key] = 1
+	}
+	return any
 }
 
 // propagate runs the global fixpoint.
